@@ -618,7 +618,7 @@ package bpmn
 
 //@ func (*flow).Start$1
 //@   prop C01 C04 C06 C07 C08 C09
-//@   requires f.tracer != nil && f.flowWaitGroup != nil
+//@   requires f != nil && f.tracer != nil && f.flowWaitGroup != nil
 //@   ensures [announces-itself-first] isTrace(ev(old(evlen))) && is(evval(ev(old(evlen))), NewFlowTrace)
 //@   ensures [counted-out-exactly-once] count(WgDone, f.flowWaitGroup) == old(count(WgDone, f.flowWaitGroup)) + 1 &&
 //@             isWgDone(ev(evlen - 2)) && evch(ev(evlen - 2)) == f.flowWaitGroup
@@ -655,7 +655,9 @@ package bpmn
 //@               fncode(at(flowHandlers, b)) == code("(*flow).handleAdditionalSequenceFlow$1")
 //@     invariant len(effectiveFlows) >= len(flowHandlers) && (flowed ==> len(effectiveFlows) == len(flowHandlers) + 1) && (!flowed ==> len(effectiveFlows) == len(flowHandlers))
 //@   loop 7 range flowHandlers
-//@     invariant tokFrame(f) && f.retry == athead(1, f.retry)
+//@     invariant f.tracer == old(f.tracer) && f.flowWaitGroup == old(f.flowWaitGroup) && f.id == old(f.id) && f.idGenerator == old(f.idGenerator) &&
+//@               f.retry == athead(1, f.retry)
+//@     invariant count(WgDone, f.flowWaitGroup) == old(count(WgDone, f.flowWaitGroup)) && count(Trace, TerminationTrace) == old(count(Trace, TerminationTrace))
 //@     invariant [forks-are-started-after-their-announcement] count(Trace, FlowTrace) == athead(1, count(Trace, FlowTrace)) + 1
 //@     invariant count(Trace, VisitTrace) == athead(1, count(Trace, VisitTrace)) + (flowed ? 1 : 0)
 //@     invariant forall b int :: off(flowHandlers) <= b && b < off(flowHandlers) + len(flowHandlers) ==>
